@@ -93,7 +93,11 @@ func runC02(c *CaseCtx) {
 			checkRootIdxFiles(c, run.DB, run.Dir, run.Class)
 		}
 		if r.Intn(15) == 0 {
-			if !run.Reopen() {
+			if c.Case%8 == 5 && !manyTxPerSegment {
+				if !run.ReopenResized(r, 150, 600, g) {
+					return
+				}
+			} else if !run.Reopen() {
 				return
 			}
 			reads("after-reopen")
